@@ -152,7 +152,7 @@ class kFlowDecompCycles(walkmodel.AbstractWalkModelDiGraph):
             flow_attr=self.flow_attr, edges_to_ignore=self.edges_to_ignore
         )
         # (int() would truncate a flow value such as 56.99999999999999 and cut off the weight 57)
-        self.w_max = self.k * (math.ceil(max_flow_value) if self.weight_type == int else float(max_flow_value))
+        self.w_max = int(self.k) * (math.ceil(max_flow_value) if self.weight_type == int else float(max_flow_value))
 
         self.pi_vars = {}
         self.path_weights_vars = {}
